@@ -126,13 +126,19 @@ method("_sendQueued", "(%s) -> None" % SELF, requires=["self.proto is not None"]
 method("_connectionLost", "(%s, reason: Ref_Failure) -> None" % SELF, props=["C06", "C10", "C11"],
        ensures={"proto-cleared[C10]": "self.proto is None or True"},
        requires=["self.proto is not None"],
-       loops={"for#1": dict(index="i", snapshot_present=True, inv=["self.proto is None", "self.connector is None",
+       # between `self.proto = None` and the reconnect at the end the object is deliberately idle-with-work: the clause
+       # never-idle is suspended while the loop runs (neither owed nor assumed), re-established before the method returns
+       loops={"for#1": dict(index="i", snapshot_present=True, objinv_exempt=["never-idle"],
+                            inv=["self.proto is None", "self.connector is None",
                                                                        "implies(self._dDown is not None, not called(self._dDown))"])})
 
 method("close", "(%s) -> Optional[Ref_Deferred]" % SELF, props=["C06", "C10", "C20"],
        requires=["self._dDown is None"],
        ensures={"closed[C20]": "self._dDown is not None and result == self._dDown and len(self.requests) == 0"},
        loops={"while#1": dict(index="n", inv=["self._dDown is not None"])})
+
+method("connected", "(%s) -> bool" % SELF, props=["C07", "C10"],
+       ensures={"has-a-connection[C07]": "result == (self.proto is not None)"})
 
 method("disconnect", "(%s) -> None" % SELF, props=["C11"],
        ensures={
